@@ -194,6 +194,62 @@ pub fn oracle(e: &Exec) -> Option<String> {
         }
         i += 1;
     }
+    // a search without a time budget of its own ends only at its depth limit or on stop / ucinewgame / quit: a
+    // `bestmove` that appears while the command loop is still at work (a later command is consumed afterwards) and
+    // before any of those was consumed means something else lowered its flag (a stale timer of an earlier search)
+    {
+        let search_threads: Vec<usize> = e.names.iter().enumerate().filter(|(_, n)| **n == "search").map(|(i, _)| i).collect();
+        let mut accepted: Vec<(usize, String)> = vec![]; // (log index of consumption, text) of accepted go commands
+        for (i, ev) in log.iter().enumerate() {
+            if let Ev::Consume(l) = ev {
+                if l.split_whitespace().next() == Some("go") {
+                    let mut refused = false;
+                    for e2 in &log[i + 1..] {
+                        match e2 {
+                            Ev::Consume(_) => break,
+                            Ev::Out(0, t) if t.starts_with("error:") => refused = true,
+                            _ => {}
+                        }
+                    }
+                    if !refused {
+                        accepted.push((i, l.clone()));
+                    }
+                }
+            }
+        }
+        for (bi, ev) in log.iter().enumerate() {
+            let Ev::Out(t, text) = ev else { continue };
+            if !text.starts_with("bestmove") {
+                continue;
+            }
+            let Some(k) = search_threads.iter().position(|x| x == t) else { continue };
+            let Some((gi, gtext)) = accepted.get(k) else { continue };
+            if *gi > bi {
+                continue;
+            }
+            let toks: Vec<&str> = gtext.split_whitespace().collect();
+            if toks.iter().any(|x| matches!(*x, "movetime" | "wtime" | "btime" | "winc" | "binc")) {
+                continue;
+            }
+            let ended_by_command = log[*gi..bi].iter().any(|x| matches!(x, Ev::Consume(l) if matches!(l.split_whitespace().next(), Some("stop") | Some("ucinewgame") | Some("quit"))));
+            let loop_still_working = log[bi..].iter().any(|x| matches!(x, Ev::Consume(_)));
+            if ended_by_command || !loop_still_working {
+                continue;
+            }
+            let printed_depth = |d: &str| log[*gi..bi].iter().any(|x| matches!(x, Ev::Out(tt, l) if tt == t && l.trim() == format!("info depth {}", d)));
+            if toks.contains(&"infinite") {
+                if !printed_depth("64") {
+                    return Some(format!("`{}` announced `{}` although no stop, ucinewgame or quit had been processed (and it had not run through all iterations): something else ended the search", gtext, text));
+                }
+            } else if let Some(p) = toks.iter().position(|x| *x == "depth") {
+                if let Some(d) = toks.get(p + 1) {
+                    if d.parse::<u32>().map_or(false, |d| d >= 1 && d <= 64) && !printed_depth(d) {
+                        return Some(format!("`{}` announced `{}` without having completed iteration {} and without stop, ucinewgame or quit: something else ended the search", gtext, text, d));
+                    }
+                }
+            }
+        }
+    }
     if let Some((t, n)) = per_thread_best.iter().find(|(_, n)| **n > 1) {
         return Some(format!("search thread #{} printed {} bestmove lines", t, n));
     }
